@@ -370,6 +370,24 @@ def workload(ctx, repo):
                 ctx.case = case
                 ctx.ev("cases.epoch-cycles")
                 run_case(ctx, repo, case)
+    # the days around the leap day in every representation (day 60 is 29
+    # February in a leap year and 1 March otherwise)
+    if ctx.worker == 0:
+        for y in (2000, 2004, 2020, 1600, 1900, 2001, 0):
+            for rd in range(R.ymd_to_rd(MODE, y, 2, 27),
+                            R.ymd_to_rd(MODE, y, 3, 2) + 1):
+                for rep in gen.REPS:
+                    kw = gen.date_kwargs(MODE, rep, rd)
+                    kw.pop("num_expanded_year_digits", None)
+                    kw.update({"hour_of_day": 6, "minute_of_hour": 7,
+                               "second_of_minute": 8})
+                    kw.update(gen.zone_kwargs((0, 0)))
+                    for via in ("point", "dumper"):
+                        case = {"op": "strftime", "p": kw, "via": via,
+                                "fmt": "%Y-%m-%d %j %F"}
+                        ctx.case = case
+                        ctx.ev("cases.leap-day")
+                        run_case(ctx, repo, case)
     n = 8000 if ctx.tier == "quick" else 24000
     for k in range(n):
         v = k % 10
